@@ -60,13 +60,14 @@ def run(tier, seed, replay=None):
     for it in range(reps):
         pd = rng.choice([1, 2, 2, 3, 3])
         order = rng.choice([2, 2, 3])
+        asym_ = rng.random() < 0.4      # knot vectors that are not symmetric under reversal (conforming: the same along each lattice axis)
         rat = rng.choice([False, False, True, 'mixed', 'mixed'])     # 'mixed': rational and polynomial patches in one model
         ring = pd >= 2 and rng.random() < 0.2
         if ring:
             # complexes closing around an axis: a patch adjacent to itself, two patches sharing two interfaces, closed chains
-            cx = X.build_ring(rng, pd, order=order, refine=rng.choice([0, 0, 1]), rational=rat)
+            cx = X.build_ring(rng, pd, order=order, refine=rng.choice([0, 0, 1]), rational=rat, asym=asym_)
         else:
-            cx = X.build(rng, pd, order=order, refine=rng.choice([0, 0, 1]), rational=rat)
+            cx = X.build(rng, pd, order=order, refine=rng.choice([0, 0, 1]), rational=rat, asym=asym_)
         args = describe(cx)
         nontriv.add(C.case_hash(args))
         try:
@@ -262,6 +263,52 @@ def run(tier, seed, replay=None):
         except Exception as e:  # noqa
             fail('orientation', args, 'non-matching objects raised %s instead of OrientationError' % type(e).__name__)
 
+    # same control net, different knots: two objects that differ only in where an interior knot sits are different objects,
+    # whatever the size of the parametric domain (the knot tolerance applies to the knot vector normalised to [0,1]); the same
+    # knots on another domain (any positive affine image) match
+    for it in range(reps):
+        pd = rng.choice([1, 2, 2, 3])
+        spec = O.gen_obj(rng, pardim=pd, kinds=['open'], nint_max=2, pmax=3, rational=rng.random() < 0.3)
+        dirs_ = [d_ for d_, b_ in enumerate(spec['bases']) if len(set(b_['knots'])) > 2]
+        if not dirs_:
+            continue
+        a = O.make_impl(spec)
+        scale_ = rng.choice([1.0, 2.0 ** -20, 2.0 ** -23, 2.0 ** 20, 3.0])
+        for d_ in range(pd):
+            a.reparam((a.start(d_) * scale_, a.end(d_) * scale_) if a.start(d_) * scale_ < a.end(d_) * scale_ else (0.0, scale_), direction=d_)
+        d_ = rng.choice(dirs_)
+        kn_ = a.knots(d_, with_multiplicities=True)
+        uq_ = sorted(set(kn_))
+        k_ = rng.choice(uq_[1:-1])
+        lo_, hi_ = uq_[uq_.index(k_) - 1], uq_[uq_.index(k_) + 1]
+        moved_ = k_ + rng.choice([0.3 * (hi_ - k_), -0.3 * (k_ - lo_)])
+        bases_ = [bb_.clone() for bb_ in a.bases]
+        bases_[d_] = BSplineBasis(a.order(d_), [moved_ if x_ == k_ else x_ for x_ in kn_])
+        cls_ = {1: Curve, 2: Surface, 3: Volume}[pd]
+        b = cls_(*bases_, a.controlpoints.copy(), a.rational, raw=True)
+        same_ = a.clone()
+        for e_ in range(pd):
+            same_.reparam((7.0, 7.0 + rng.choice([1.0, 2.0 ** -18, 4096.0])), direction=e_)
+        args_ = dict(obj=O.spec_json(O.snapshot(a)), direction=d_, knot=float(k_), moved_to=float(moved_), domain_scale=scale_)
+        nontriv.add(C.case_hash(args_))
+        count('same net, different knots')
+        try:
+            Orientation.compute(a, b)
+            fail('orientation', args_, 'objects with the same control net but different knot vectors were reported as matching')
+        except OrientationError:
+            pass
+        except Exception as e:  # noqa
+            fail('orientation', args_, 'raised %s instead of OrientationError' % type(e).__name__)
+        try:
+            o_ = Orientation.compute(a, same_)
+            if tuple(o_.perm) != tuple(range(pd)) or any(o_.flip):
+                # (symmetric nets may match under several orientations: accept any that maps the net)
+                if not np.allclose(mapcps(o_, same_.controlpoints), a.controlpoints, atol=1e-8):
+                    fail('orientation', args_, 'the same object on another parametric domain is matched by an orientation that does not map the nets')
+        except OrientationError:
+            fail('orientation', args_, 'the same object on another parametric domain (positive affine image of the knots) was reported as non-matching')
+        except Exception as e:  # noqa
+            fail('orientation', args_, 'raised %s' % type(e).__name__)
     # ---------------------------------------------------------------- twins and handedness
     for it in range(max(4, reps // 4)):
         pd = rng.choice([1, 2, 2, 3])
